@@ -103,6 +103,14 @@ claim(
 )
 
 claim(
+    "C05",
+    "Static: decides the structural clauses of the vortex-lattice method for every option valuation: the finite filaments EvalVelMtx adds for each (image) surface form a closed directed ring over the four panel corners with one strength, the last row sheds the reversed rear segment into two semi-infinite legs of opposite sign along (cos alpha, 0, sin alpha) so that no filament ends in the fluid; collocation points, force points, bound vectors and vortex-ring rows are the 3/4- and 1/4-chord stencils of the mesh corners with the trailing edge kept; the panel force is rho Gamma (v x l); the tangency system is -(v.n) and (AIC.n). Does not decide kernel values, the solve, the tangency residual or agreement with an independent solver.",
+    TB + " The Biot-Savart kernels are uninterpreted functions of the corner arrays they are applied to.",
+    "source-level expression extraction (sympy) with uninterpreted kernel helpers; signed incidence of the filament graph; stencil coefficients",
+    "DESIGN.md section 2 C05",
+)
+
+claim(
     "C06",
     "Static: decides dimensional homogeneity of every compute() by unit inference seeded with the declared input units (one dimension per + - compare, dimensionless arguments of transcendental functions, inferred dimension of each output equal to its declared unit, coefficients dimensionless, one dimension per variable name across components, no dimensional constants beyond the documented ones), which by the Pi theorem is the density-, speed- and length-scaling law up to those constants; that lift and drag are the components of the summed panel forces along the unit free-stream direction used by ConvertVelocity and along a unit normal to it; that the moment and the rotational velocity depend on positions only through differences (translation law); that CL1 = L/(qS), CDi = D/(qS) and the aircraft coefficients are the reference-area-weighted combination; and that the panel force is rho Gamma (v x l). Does not decide the scaling of the solved circulations through the linear system or the kernel's translation invariance.",
     TB + " Unit strings are interpreted by a table of OpenMDAO unit names (oasa/unit.py BASE).",
